@@ -18,6 +18,16 @@ SET_RETURNING_ATTRS = {"get_dependencies"}          # Metric.get_dependencies(..
 SET_RETURNING_FUNCS = {"_extract_models_from_sql", "find_all_models_for_query"}
 
 
+def is_dict_of_sets_annotation(a):
+    if a is None:
+        return False
+    t = ast.unparse(a).replace(" ", "")
+    return (t.startswith("dict[") or t.startswith("defaultdict[") or t.startswith("Dict[")) and ("set[" in t.split(",", 1)[-1] or t.split(",", 1)[-1].startswith("set"))
+
+
+ORDER_KEEPING_WRAPPERS = {"enumerate", "list", "tuple", "iter", "zip", "reversed"}      # iterate their argument in ITS order
+
+
 def is_set_annotation(a):
     if a is None:
         return False
@@ -54,6 +64,32 @@ class FnScan(ast.NodeVisitor):
         for a in fn.args.args + fn.args.kwonlyargs:
             if is_set_annotation(a.annotation):
                 self.setvars.add(a.arg)
+        self.dictsetvars = set()
+        for a in fn.args.args + fn.args.kwonlyargs:
+            if is_dict_of_sets_annotation(a.annotation):
+                self.dictsetvars.add(a.arg)
+        for n in walk_local(fn):
+            # d: dict[str, set[str]] = {}   /   d = defaultdict(set)   /   d.setdefault(k, set())   /   d[k] = set(...)
+            if isinstance(n, ast.AnnAssign) and isinstance(n.target, ast.Name) and is_dict_of_sets_annotation(n.annotation):
+                self.dictsetvars.add(n.target.id)
+            if isinstance(n, ast.Assign) and len(n.targets) == 1 and isinstance(n.targets[0], ast.Name) and isinstance(n.value, ast.Call) and isinstance(n.value.func, ast.Name) \
+                    and n.value.func.id == "defaultdict" and n.value.args and isinstance(n.value.args[0], ast.Name) and n.value.args[0].id in SET_CALLS:
+                self.dictsetvars.add(n.targets[0].id)
+            if isinstance(n, ast.Call) and isinstance(n.func, ast.Attribute) and n.func.attr == "setdefault" and isinstance(n.func.value, ast.Name) and len(n.args) == 2 \
+                    and (isinstance(n.args[1], (ast.Set, ast.SetComp)) or (isinstance(n.args[1], ast.Call) and isinstance(n.args[1].func, ast.Name) and n.args[1].func.id in SET_CALLS)):
+                self.dictsetvars.add(n.func.value.id)
+            if isinstance(n, ast.Assign) and len(n.targets) == 1 and isinstance(n.targets[0], ast.Subscript) and isinstance(n.targets[0].value, ast.Name) \
+                    and (isinstance(n.value, (ast.Set, ast.SetComp)) or (isinstance(n.value, ast.Call) and isinstance(n.value.func, ast.Name) and n.value.func.id in SET_CALLS)):
+                self.dictsetvars.add(n.targets[0].value.id)
+        for n in walk_local(fn):
+            # for k, v in d.items() / for v in d.values(): v is one of the sets
+            gens = [(n.target, n.iter)] if isinstance(n, ast.For) else [(g.target, g.iter) for g in getattr(n, "generators", [])] if isinstance(n, (ast.ListComp, ast.SetComp, ast.GeneratorExp, ast.DictComp)) else []
+            for tgt, it in gens:
+                if isinstance(it, ast.Call) and isinstance(it.func, ast.Attribute) and isinstance(it.func.value, ast.Name) and it.func.value.id in self.dictsetvars:
+                    if it.func.attr == "items" and isinstance(tgt, ast.Tuple) and len(tgt.elts) == 2 and isinstance(tgt.elts[1], ast.Name):
+                        self.setvars.add(tgt.elts[1].id)
+                    if it.func.attr == "values" and isinstance(tgt, ast.Name):
+                        self.setvars.add(tgt.id)
         # two passes so that assignments later in the function are known at earlier loops (conservative)
         for _ in range(2):
             for n in walk_local(fn):
@@ -66,6 +102,14 @@ class FnScan(ast.NodeVisitor):
 
     def is_set(self, e):
         if isinstance(e, (ast.Set, ast.SetComp)):
+            return True
+        # an element of a dict of sets
+        if isinstance(e, ast.Subscript) and isinstance(e.value, ast.Name) and e.value.id in self.dictsetvars:
+            return True
+        if isinstance(e, ast.Call) and isinstance(e.func, ast.Attribute) and isinstance(e.func.value, ast.Name) and e.func.value.id in self.dictsetvars and e.func.attr in ("get", "setdefault", "pop"):
+            return True
+        # list(s) / tuple(s) / enumerate(s) / iter(s) / zip(s, ...) / reversed(list(s)) hand the elements over in the set's own order
+        if isinstance(e, ast.Call) and isinstance(e.func, ast.Name) and e.func.id in ORDER_KEEPING_WRAPPERS and any(self.is_set(a) for a in e.args):
             return True
         if isinstance(e, ast.Name):
             return e.id in self.setvars
@@ -133,11 +177,11 @@ class FnScan(ast.NodeVisitor):
                 self.sites.append((self.fname, self.fn.name, n.lineno, ast.unparse(n.args[0])[:60], "Sorted" if total else "PartialSort"))
             iters = []
             if isinstance(n, ast.For):
-                iters.append((n.iter, n.body, n.lineno))
+                iters.append((n.iter, n.body, n.lineno, n.target))
             if isinstance(n, (ast.ListComp, ast.GeneratorExp, ast.DictComp)):
                 for g in n.generators:
-                    iters.append((g.iter, None, n.lineno))
-            for it, body, line in iters:
+                    iters.append((g.iter, None, n.lineno, g.target))
+            for it, body, line, target in iters:
                 srt = isinstance(it, ast.Call) and isinstance(it.func, ast.Name) and it.func.id == "sorted"
                 inner = it.args[0] if srt and it.args else it
                 if not self.is_set(inner):
@@ -146,6 +190,8 @@ class FnScan(ast.NodeVisitor):
                     continue                  # reported by the sorted(..., key=...) rule above
                 elif srt:
                     kind = "Sorted"
+                elif body is not None and self.position_used(it, target, body):
+                    kind = "Raw"               # enumerate(<set>): the POSITION of an element in the set's order flows into a value
                 elif body is not None and self.order_insensitive(body):
                     kind = "Irrelevant"
                 elif body is None and isinstance(n, ast.GeneratorExp):
@@ -156,6 +202,20 @@ class FnScan(ast.NodeVisitor):
                     kind = "Raw"
                 self.sites.append((self.fname, self.fn.name, line, ast.unparse(inner)[:60], kind))
         return self.sites
+
+    def position_used(self, it, target, body):
+        """for i, x in enumerate(<set>): is i used other than inside a subscript / slice (where it only selects the remaining elements)?"""
+        if not (isinstance(it, ast.Call) and isinstance(it.func, ast.Name) and it.func.id == "enumerate" and isinstance(target, ast.Tuple) and target.elts and isinstance(target.elts[0], ast.Name)):
+            return False
+        idx = target.elts[0].id
+
+        def uses(node, in_slice=False):
+            if isinstance(node, ast.Name) and node.id == idx:
+                return not in_slice
+            if isinstance(node, ast.Subscript):
+                return uses(node.value, in_slice) or uses(node.slice, True)
+            return any(uses(ch, in_slice) for ch in ast.iter_child_nodes(node))
+        return any(uses(st) for st in body)
 
     def _gen_consumer_ok(self, gen):
         # any(...)/all(...)/set(...)/sorted(...)/sum(...) over a generator do not depend on order
